@@ -134,7 +134,7 @@ fn body<D1: D + ?Sized>(d: &D1, name: &str, a: u8) -> Val {
     Val::new(format!("{name}({a})[{}]", parts.join(",")))
 }
 
-#[unimock(api=DMock, unmock_with=[real_r0, _, real_u2(b, a), real_u3, _, _, _, _, _, _, real_mm, _])]
+#[unimock(api=DMock, unmock_with=[real_r0, _, real_u2(b, a), real_u3, _, _, _, _, _, _, real_mm, _, _, _])]
 pub trait D {
     fn r0(&self, a: u8) -> Val;
     fn r1(&self, a: u8) -> Val;
@@ -162,6 +162,12 @@ pub trait D {
         body(&*self, "dflt19", a)
     }
     fn m_mut(&mut self, a: u8) -> Val;
+    /// required method with an Rc receiver ...
+    fn r_rc(self: Rc<Self>, a: u8) -> Val;
+    /// ... called (consuming the pointer) from a provided method with the same receiver
+    fn p_rc2(self: Rc<Self>, a: u8) -> Val {
+        Val::new(format!("dflt24({a})[{}]", self.r_rc(a).take()))
+    }
     /// skipped by the macro, but occupies an unmock_with slot (last, so that nothing in this trait
     /// depends on how slots after a skipped function are counted; trait T covers that)
     fn assoc_d() -> u8
